@@ -31,8 +31,15 @@ func c10Next(versioned bool) func(g *prog.Gen, idx int, hist []*prog.Step) *prog
 				acts = []string{"s3:PutObject", "s3:GetObject", "s3:DeleteObject", "s3:GetObjectVersion", "s3:PutObjectRetention", "s3:PutObjectLegalHold",
 					"s3:GetObjectRetention", "s3:GetObjectLegalHold", "s3:PutBucketObjectLockConfiguration", "s3:PutBucketVersioning", "s3:DeleteBucket", "s3:ListBucketVersions"}
 			}
-			return &prog.Op{Kind: "putBucketPolicy", Caller: owner, B: b, Valid: true,
-				Policy: &prog.Policy{ID: 7000 + idx, Stmts: []prog.Stmt{{Allow: true, Principals: []string{"usr1", "up1"}, Actions: acts, Resources: []string{b, b + "/*"}}}}}
+			pol := &prog.Policy{ID: 7000 + idx, Stmts: []prog.Stmt{{Allow: true, Principals: []string{"usr1", "up1"}, Actions: acts, Resources: []string{b, b + "/*"}}}}
+			if idx%3 == 2 {
+				// the governance bypass is granted for one key (or one prefix) only: in a batch every key needs its own grant
+				pol.Stmts[0].Actions = []string{"s3:PutObject", "s3:GetObject", "s3:DeleteObject", "s3:GetObjectVersion", "s3:PutObjectRetention", "s3:PutObjectLegalHold",
+					"s3:GetObjectRetention", "s3:GetObjectLegalHold", "s3:PutBucketObjectLockConfiguration", "s3:PutBucketVersioning", "s3:DeleteBucket", "s3:ListBucketVersions"}
+				pol.Stmts = append(pol.Stmts, prog.Stmt{Allow: true, Principals: []string{"usr1", "up1"}, Actions: []string{"s3:BypassGovernanceRetention"},
+					Resources: []string{[]string{b + "/dir/*", b + "/k1"}[(idx/3)%2]}})
+			}
+			return &prog.Op{Kind: "putBucketPolicy", Caller: owner, B: b, Valid: true, Policy: pol}
 		}
 		vids := c09KnownVids(hist)
 		if n >= total {
@@ -89,7 +96,11 @@ func c10Next(versioned bool) func(g *prog.Gen, idx int, hist []*prog.Step) *prog
 			return &prog.Op{Kind: "deleteObject", Caller: caller, B: b, K: k, Vid: vid, Bypass: bypass}
 		case r < 56:
 			o := &prog.Op{Kind: "deleteObjects", Caller: caller, B: b, Bypass: bypass}
-			for _, kk := range keys {
+			bk := keys
+			if g.R.Chance(50) {
+				bk = []string{keys[1], keys[0]}
+			}
+			for _, kk := range bk {
 				v := ""
 				if versioned && len(vids[kk]) > 0 && g.R.Chance(50) {
 					v = vids[kk][g.R.Intn(len(vids[kk]))]
